@@ -151,13 +151,28 @@ class proceed:
         self.fn = fn
 
     def __enter__(self):
-        self.curr = HandlerCollection.current.get() or HandlerCollection([])
-        self.interactor, new = self.curr.proceed(self.fn)
-        self.reset = HandlerCollection.current.set(new)
+        self.outside = HandlerCollection.current.get()
+        self.curr = self.outside or HandlerCollection([])
+        self.interactor, self.inside = self.curr.proceed(self.fn)
+        HandlerCollection.current.set(self.inside)
         return self.interactor
 
+    def suspend(self):
+        """Called when the function (a generator) yields.
+
+        The caller gets back the handlers it had when it resumed us, so
+        that it is not treated as running inside the generator.
+        """
+        self.inside = HandlerCollection.current.get()
+        HandlerCollection.current.set(self.outside)
+
+    def resume(self):
+        """Called when the function (a generator) is resumed after a yield."""
+        self.outside = HandlerCollection.current.get()
+        HandlerCollection.current.set(self.inside)
+
     def __exit__(self, typ, exc, tb):
-        HandlerCollection.current.reset(self.reset)
+        HandlerCollection.current.set(self.outside)
         self.interactor.exit()
 
 
